@@ -372,6 +372,8 @@ class H2Protocol:
                 pass  # Ignore the priority information rather than fail
             else:
                 self.priority.block(event.stream_id)
+        except priority.TooManyStreamsError:
+            pass  # No room for the parent, ignore the priority information
         await self.has_data.set()
 
     def _reset_stream(self, stream_id: int, error_code: h2.errors.ErrorCodes) -> None:
